@@ -185,7 +185,7 @@ package machine
 //@   props C01 C03
 //@   requires locks: unlocked(m.schemaMx)
 //@   requires tx:    m.t != nil
-//@   requires tgt:   nodup(targetStates) && subset(targetStates, m.stateNames)
+//@   requires tgt:   m.disposing || (nodup(targetStates) && subset(targetStates, m.stateNames))
 //@   requires inv:   ClockInv(m) && !isnil(m.clock)
 //@   requires room:  forall s string :: m.clock[s] <= MaxU64 - 2
 //@   assigns  m.activeStates, m.clock
@@ -622,19 +622,22 @@ package machine
 // transition is queued (C04), so clocks and active states are not assigned.
 //@ func (m *Machine) handle(name string, args A, isFinal, isEnter, isSelf bool) (r Result, called bool)
 //@   trusted handler dispatch (reflection, handler goroutine, timeouts): only result range and frame are specified
-//@   assigns Transition.latestHandlerIsEnter, Transition.latestHandlerIsFinal, Machine.panicCaught, Machine.queue, Machine.queueLen, Machine.queueTicksPending, Machine.logEntries, ghost.faults, ghost.vetoes
+//@   assigns Transition.latestHandlerIsEnter, Transition.latestHandlerIsFinal, Machine.panicCaught, Machine.queue, Machine.queueLen, Machine.queueTicksPending, Machine.logEntries, ghost.faults, ghost.vetoes, ghost.finalsDone
 //@   ensures res: r == Executed || r == Canceled
 //@   ensures faults: (isFinal && r == Canceled) ? ghost.faults == old(ghost.faults) + 1 : ghost.faults == old(ghost.faults)
 //@   ensures vetoes: (!isFinal && r == Canceled) ? ghost.vetoes == old(ghost.vetoes) + 1 : ghost.vetoes == old(ghost.vetoes)
+//@   ensures done:   (isFinal && r != Canceled) ? ghost.finalsDone == old(ghost.finalsDone) + 1 : ghost.finalsDone == old(ghost.finalsDone)
+//@   ensures latest: !m.disposing && m.t != nil ==> m.t.latestHandlerIsEnter == isEnter && m.t.latestHandlerIsFinal == isFinal
 //@   ensures queue: old(QueueInv(m)) ==> QueueInv(m)
 
 //@ func (t *Transition) emitHandler(from, to string, isFinal, isEnter bool, event string, args A) (r Result)
 //@   props C05
 //@   requires nn: t.Machine != nil
-//@   assigns Transition.latestHandlerToState, Transition.latestHandlerIsEnter, Transition.latestHandlerIsFinal, Machine.panicCaught, Machine.queue, Machine.queueLen, Machine.queueTicksPending, Machine.logEntries, ghost.faults, ghost.vetoes
+//@   assigns Transition.latestHandlerToState, Transition.latestHandlerIsEnter, Transition.latestHandlerIsFinal, Machine.panicCaught, Machine.queue, Machine.queueLen, Machine.queueTicksPending, Machine.logEntries, ghost.faults, ghost.vetoes, ghost.finalsDone
 //@   ensures res: r == Executed || r == Canceled
 //@   ensures faults: (isFinal && r == Canceled) ? ghost.faults == old(ghost.faults) + 1 : ghost.faults == old(ghost.faults)
 //@   ensures vetoes: (!isFinal && r == Canceled) ? ghost.vetoes == old(ghost.vetoes) + 1 : ghost.vetoes == old(ghost.vetoes)
+//@   ensures done:   (isFinal && r != Canceled) ? ghost.finalsDone == old(ghost.finalsDone) + 1 : ghost.finalsDone == old(ghost.finalsDone)
 //@   ensures queue: old(QueueInv(t.Machine)) ==> QueueInv(t.Machine)
 
 // Negotiation emitters: each runs the handlers of one phase; a Canceled result
@@ -745,16 +748,26 @@ package machine
 // Final handlers run only after the target has been applied, and see the real
 // time in TimeAfter.
 //@ func (t *Transition) emitFinalEvents() (r Result)
-//@   props C05
-//@   requires nn:      t.Machine != nil && t.Mutation != nil
+//@   props C05 C08
+//@   requires nn:      t.Machine != nil && t.Mutation != nil && t.Machine.t == t
 //@   requires applied: ghost.phase == 6
 //@   requires timeafter: t.Machine.disposed || TimeAfterOK(t)
+//@   requires lists:   forall j int :: 0 <= j && j < len(t.Exits) ==> !mem(t.Enters, t.Exits[j])
 //@   ghostset phase := 7
-//@   assigns Transition.latestHandlerToState, Transition.latestHandlerIsEnter, Transition.latestHandlerIsFinal, Machine.panicCaught, Machine.queue, Machine.queueLen, Machine.queueTicksPending, Machine.logEntries, ghost.faults, ghost.vetoes
+//@   assigns Transition.latestHandlerToState, Transition.latestHandlerIsEnter, Transition.latestHandlerIsFinal, Machine.panicCaught, Machine.queue, Machine.queueLen, Machine.queueTicksPending, Machine.logEntries, ghost.faults, ghost.vetoes, ghost.finalsDone
 //@   ensures res: r == Executed || r == Canceled
 //@   ensures faults: (r == Canceled) ? ghost.faults > old(ghost.faults) : ghost.faults == old(ghost.faults)
+//@   ensures all_done: r == Executed ==> ghost.finalsDone == old(ghost.finalsDone) + len(t.Exits) + len(t.Enters)
+//@   ensures fault_at: r == Canceled && !t.Machine.disposing ==> FaultAt(t, ghost.finalsDone - old(ghost.finalsDone))
 //@   ensures queue: old(QueueInv(t.Machine)) ==> QueueInv(t.Machine)
 //@   loop 1 invariant faults: ghost.faults == old(ghost.faults) && (old(QueueInv(t.Machine)) ==> QueueInv(t.Machine))
+//@   loop 1 invariant done:   ghost.finalsDone == old(ghost.finalsDone) + idx1 && t.Machine.t == t
+
+// FaultAt: the bookkeeping recovery reads, when the final handler of position k
+// (Exits first, then Enters) faulted: End handlers leave no state name.
+//@ pred FaultAt(t *Transition, k int) := 0 <= k && k < len(t.Exits) + len(t.Enters) && t.latestHandlerIsFinal
+//@      && (k < len(t.Exits) ? (t.latestHandlerToState == "" && !t.latestHandlerIsEnter)
+//@                           : (t.latestHandlerToState == t.Enters[k - len(t.Exits)] && t.latestHandlerIsEnter))
 
 // TimeAfterOK: the transition's TimeAfter is the machine's time.
 //@ pred TimeAfterOK(t *Transition) := len(t.TimeAfter) == len(t.Machine.stateNames) && (forall i int :: 0 <= i && i < len(t.TimeAfter) ==> t.TimeAfter[i] == t.Machine.clock[t.Machine.stateNames[i]])
@@ -821,11 +834,30 @@ package machine
 //@   trusted specified with C06; here only its frame matters (subscription indexes)
 //@ func (sm *Subscriptions) HasWhenArgs() (r bool)
 //@   trusted reads the subscription index
+// Recovery after a fault in the final phase: with k final handlers completed
+// (ghost.finalsDone; Exits come first, then Enters), exactly the deactivations
+// Exits[k..] and the activations Enters[k-len(Exits)..] are rolled back, through
+// setActiveStates, so tick parity keeps matching activity.
+//@ pred RolledBack(active S, exits S, enters S, k int, s string) :=
+//@      (mem(active, s) && !(exists j int :: 0 <= j && j < len(enters) && k - len(exits) <= j && enters[j] == s))
+//@   || (exists j int :: k <= j && j < len(exits) && exits[j] == s)
 //@ func (m *Machine) recoverFinalPhase()
-//@   trusted specified with C08; here: re-ticks through setActiveStates and counts as a fault
-//@   assigns Machine.activeStates, Machine.clock
+//@   props C08 C01
+//@   requires nn:    m.t != nil && m.t.Machine == m && m.t.Mutation != nil && m.t.Mutation.cacheCalled != nil
+//@   requires locks: unlocked(m.activeStatesMx) && unlocked(m.schemaMx) && unlocked(m.logEntriesLock)
+//@   requires inv:   ClockInv(m) && !isnil(m.clock)
+//@   requires room:  forall s string :: m.clock[s] <= MaxU64 - 2
+//@   requires lists: nodup(m.t.Exits) && nodup(m.t.Enters) && subset(m.t.Exits, m.stateNames) && (forall j int :: 0 <= j && j < len(m.t.Exits) ==> !mem(m.t.Enters, m.t.Exits[j]) && !mem(m.activeStates, m.t.Exits[j]))
+//@   requires named: (forall j int :: 0 <= j && j < len(m.t.Exits) ==> m.t.Exits[j] != "") && (forall j int :: 0 <= j && j < len(m.t.Enters) ==> m.t.Enters[j] != "")
+//@   requires fault: m.disposing || FaultAt(m.t, ghost.finalsDone)
+//@   assigns  m.activeStates, m.clock, m.activeStatesMx, Machine.logEntries, ghost.phase
 //@   ghostset applied := ghost.applied + 1
-//@   ensures inv: ClockInv(m)
+//@   ensures  inv:      ClockInv(m)
+//@   ensures  rollback_enter: !m.disposing && ghost.finalsDone >= len(m.t.Exits) ==> (forall s string :: mem(m.activeStates, s) <==> RolledBack(old(m.activeStates), m.t.Exits, m.t.Enters, ghost.finalsDone, s))
+//@   ensures  rollback_end:   !m.disposing && ghost.finalsDone < len(m.t.Exits) ==> (forall s string :: mem(m.activeStates, s) <==> RolledBack(old(m.activeStates), m.t.Exits, m.t.Enters, ghost.finalsDone, s))
+//@   ensures  locks:    unlocked(m.activeStatesMx)
+//@   loop 1 invariant found: !m.disposing ==> (found <==> (t.latestHandlerIsEnter && idx1 > ghost.finalsDone))
+//@   loop 1 invariant act:   !m.disposing ==> nodup(activeStates) && subset(activeStates, m.stateNames) && (forall s string :: mem(activeStates, s) <==> (mem(old(m.activeStates), s) && !(t.latestHandlerIsEnter && (exists j int :: ghost.finalsDone <= j && j < idx1 && finals[j] == s))))
 //@ func (m *Machine) StateNames() (r S)
 //@   trusted shared cached copy of stateNames (its lock discipline is examined under C12)
 //@   ensures def: seqeq(r, m.stateNames)
